@@ -90,9 +90,6 @@ theorem parseDec_digits (ds rest : Bytes) (h : ∀ d ∈ ds, isDigit d = true) :
 
 /-! ### SCGI -/
 
-def NulFree (b : Bytes) : Prop := (0 : UInt8) ∉ b
-
-def EnvNulFree (env : List (Bytes × Bytes)) : Prop := ∀ p ∈ env, NulFree p.1 ∧ NulFree p.2
 
 theorem splitNul_pairs (env : List (Bytes × Bytes)) (h : EnvNulFree env) :
     ∀ fuel, 2 * env.length ≤ fuel →
